@@ -161,6 +161,37 @@ def _kruskal(case, ctx, rng, shape, N):
     r3 = ctx.call("ktensor.symmetrize", S.symmetrize)
     if r3.ok:
         ctx.check(close(denote(r3.value), D, tol=1e-12), "ktensor.symmetrize", "NOT-IDEMPOTENT", "symmetrising a symmetric Kruskal tensor changed it")
+    # an already symmetric Kruskal tensor keeps its value: one factor in every mode, weights of either sign, and the same tensor
+    # presented with columns negated in an even number of modes / with the sign moved between a weight and one mode
+    F = rng.standard_normal((shape[0], R))
+    ws = (rng.random(R) + 0.5) * (rng.choice([-1.0, 1.0], size=R) if case["wk"] != "positive" else 1.0)
+    if N % 2 == 0 and case["wk"] != "positive":
+        ws = np.abs(ws) if rng.random() < 0.5 else ws       # even order: a negative term has no symmetric real form x^N with weight>0
+    for pres in ("plain", "even-flips", "sign-in-factor"):
+        fms = [F.copy() for _ in range(N)]
+        wp = ws.copy()
+        if pres == "even-flips":
+            for j in range(R):
+                modes = rng.choice(N, size=2 * int(rng.integers(1, N // 2 + 1)), replace=False) if N >= 2 else []
+                for m in modes:
+                    fms[m][:, j] *= -1.0
+        elif pres == "sign-in-factor":
+            m = int(rng.integers(0, N))
+            fms[m] = fms[m] * np.sign(wp)
+            wp = np.abs(wp)
+        Ks = ttb.ktensor(fms, wp)
+        want = denote(Ks)
+        if not refops.is_symmetric(np.round(want, 12), [list(range(N))]) and not all(close(np.transpose(want, p_), want, tol=1e-12) for p_ in itertools.permutations(range(N))):
+            continue
+        r5 = ctx.call("ktensor.symmetrize", Ks.symmetrize)
+        if not r5.ok:
+            ctx.check(False, "ktensor.symmetrize", "RAISE:" + type(r5.exc).__name__, f"{type(r5.exc).__name__}: {r5.exc} | {r5.tb}", pres=pres)
+            continue
+        got = denote(r5.value)
+        ctx.tag("kruskal-symmetric-input:" + pres)
+        ctx.check(close(got, want, tol=1e-10), "ktensor.symmetrize", "SYMMETRIC-INPUT-CHANGED",
+                  lambda: f"symmetric Kruskal input ({pres}, weights {wp.tolist()}) changed value: max diff {np.max(np.abs(got - want)):.3e}",
+                  pres=pres, odd_order=bool(N % 2), neg_weight=bool((ws < 0).any()))
     # symmetry test on factor matrices: true iff all factor matrices are equal
     r4 = ctx.call("ktensor.issymmetric", K.issymmetric, True)
     if r4.ok:
